@@ -824,7 +824,15 @@ func (h *Heading) ToMarkdown() string {
 		return ""
 	}
 
-	prefix := strings.Repeat("#", int(h.Level))
+	// ATX headings have between one and six '#'
+	level := int(h.Level)
+	if level < 1 {
+		level = 1
+	}
+	if level > 6 {
+		level = 6
+	}
+	prefix := strings.Repeat("#", level)
 	return prefix + " " + h.Text
 }
 
